@@ -112,6 +112,12 @@ def one(rng):
     return Case(fmt, desc, lines, nontrivial=big)
 
 
+def clone_sid9(t):
+    c = clone(t)
+    c.data['sid'] = t.data['sid']
+    return c
+
+
 def cli_case(rng):
     """`treetools grammar` on a treebank, then with the written RCG grammar as input"""
     ts, _, _, _, _ = mk(rng)
@@ -123,6 +129,12 @@ def cli_case(rng):
             c.data['sid'] = i + 1
             big.append(c)
         ts = big
+    # a word the output encoding cannot represent: the command may refuse, it must not write something else
+    unenc = rng.random() < 0.12
+    if unenc:
+        ts = [clone_sid9(t) for t in ts]
+        x = rng.choice(trees.terminals(rng.choice(ts)))
+        x.data['word'] = rng.choice(["Wa\u0142\u0119sa", "\u20acuro", "\u4e2d\u6587"])
     text = ""
     for t in ts:
         s = io.StringIO()
@@ -135,12 +147,19 @@ def cli_case(rng):
     # encodings: the source is read in --src-enc, every output file is written in --dest-enc
     senc, denc = rng.choice([("utf-8", "utf-8"), ("utf-8", "utf-8"), ("utf-8", "iso-8859-1"), ("iso-8859-1", "utf-8"), ("utf-8", "utf-16"),
                              ("utf-16", "utf-8")])
+    if unenc:
+        senc, denc = "utf-8", rng.choice(["iso-8859-1", "ascii", "iso-8859-1"])
     with cli.Scratch() as sc:
         src = sc.write("tb.export", text, encoding=senc)
         mkv = []
         if gtype != "treebank" and rng.random() < 0.5:
             mkv = ["--markov"] + rng.choice([["v:1"], ["h:1"], ["v:2", "h:1"], ["nofanout", "v:1"]])
         rc, _, err = cli.run_cli(["grammar", src, sc.path("g0"), gtype, "--dest-format", "rcg", "--src-enc", senc, "--dest-enc", denc] + mkv)
+        if unenc and rc != 0:
+            # refused (UnicodeEncodeError): nothing wrong has been written
+            l0 = Line("pred", "P.C18.eq", ["a", "a"], note="a word that %s cannot represent: the command refused" % denc)
+            return Case("cli", {"trees": [proto.pretty_tree(t) for t in ts[:8]], "gramtype": gtype, "src_enc": senc, "dest_enc": denc,
+                                "unencodable": True}, [l0], nontrivial=True)
         if rc == 0:
             # re-encode what was written to utf-8 for the comparisons below; a file that is not in --dest-enc is a violation
             try:
@@ -198,6 +217,10 @@ def cli_case(rng):
                 g2, l2 = grammarinput.rcg(sc.path("g1"), "utf-8")
             lines.append(Line("corr", "read_rcg", [gram.enc_lines(gl), gram.enc_lines(ll)],
                               gram.enc_grammar(g2) + " # " + gram.enc_lexicon(l2)))
+            # the command with a grammar file as its input = the model's reader followed by the model's writer
+            lines.append(Line("corr", "rcg_rewrite", [gram.enc_lines(gl), gram.enc_lines(ll)],
+                              gram.enc_lines(gram.file_lines(sc.path("g2.rcg"))) + " # " + gram.enc_lines(gram.file_lines(sc.path("g2.lex"))),
+                              canon=gram.canon_line_files(lexfiles=(1,))))
     return Case("cli", {"trees": [proto.pretty_tree(t) for t in ts[:8]], "sentences": len(ts), "gramtype": gtype, "src_enc": senc, "dest_enc": denc}, lines, nontrivial=True)
 
 
